@@ -65,6 +65,9 @@ class CWMH(ProposalBasedSampler):
             self._proposal = cuqi.distribution.Normal(mean = lambda location:location,std = lambda scale:scale, geometry=self.dim)
 
         elif isinstance(value, cuqi.distribution.Distribution) and sorted(value.get_conditioning_variables())==['location','scale']:
+            # The acceptance ratio omits the proposal densities, which is only valid for symmetric proposals
+            if not value.is_symmetric:
+                raise ValueError("Proposal must be symmetric")
             self._proposal = value
 
         elif isinstance(value, cuqi.distribution.Normal) and sorted(value.get_conditioning_variables())==['mean','std']:
